@@ -95,6 +95,8 @@ FeeTxMarks(s, ev, t, ok) ==
      \cup If(reg /\ lk > 0 /\ Cardinality(DOMAIN tx.fee) > 1, "unlock:fee-with-extra-denomination")
      \cup If(reg /\ lk > 0 /\ known /\ p \in DOMAIN s.vest, "unlock:vesting-payer")
      \cup If(~reg /\ lk > 0 /\ f > 0, "fee:non-registry-tx-of-locked-holder")
+     \cup If(~reg /\ lk > 0 /\ f > 0 /\ HasMsg(ev, {"UpdParams"}), "fee:module-params-message-of-locked-holder")
+     \cup If(reg /\ lk > 0 /\ tx.granter # "" /\ tx.signers # <<>> /\ tx.signers # RequiredSigners(tx.msgs), "feegrant:registry-tx-of-locked-holder-signed-by-a-stranger")
      \cup If(NestedRegistryOps(tx.msgs), "exec:nested-registry-op")
      \cup If(HasMsg(ev, {"Send"}) /\ AnyMsg(ev, LAMBDA m : m.t = "Send" /\ m.to \in {"ent", "stream"}), "send:to-escrow")
      \cup If(reg /\ Len(tx.msgs) > 1 /\ ~ok /\ unlocked, "multi:later-message-fails-after-unlock")
@@ -298,6 +300,7 @@ AllLabels == <<
   "ghostparams:tally-outcome-would-differ", "ghostparams:registry-op", "ghostparams:stream-release", "ghostparams:decision",
   "feegrant:registry-tx-of-locked-holder-paid-by-granter", "feegrant:registry-tx-paid-by-granter", "feegrant:other-tx-paid-by-granter",
   "payer:sponsor-pays-registry-fee-of-a-locked-holder", "payer:locked-holder-sponsors-anothers-registry-fee",
+  "fee:module-params-message-of-locked-holder", "feegrant:registry-tx-of-locked-holder-signed-by-a-stranger",
   "feegrant:no-allowance", "feegrant:granter-cannot-pay", "feegrant:payer-cannot-cover-though-granter-pays", "feegrant:revoked",
   "decide:by-removed-signer", "whitelist:by-removed-signer", "ent:accepted-from-non-signer", "wrk:buy:nested-with-limit-above-lowered-max", "bcn:buy:nested-with-limit-above-lowered-max",
   "wrk:buy:nested-over-max", "bcn:buy:nested-over-max", "topup:drained-with-zero-time-equal-to-now", "topup:zero-time-equal-to-now", "claim:zero-time-equal-to-now",
